@@ -3,6 +3,9 @@
     W <tree> <buffer-hex> <expand 0|1><ranges 0|1>
         rtosc::walk_ports on the dynamic table <tree> with runtime == NULL; the buffer is the
         whole block handed in (its length is its real size).
+    D <tree> <obj> <buffer-hex>
+        the same with the runtime object <obj> (the harness' own callbacks answer the "pointer"
+        and "enabled by" queries from it).
     R <id> <tree> <obj> <buffer-hex>
         the same with a runtime object (the harness walks its compiled tree number <id>,
         which must have the shape <tree>, configured as <obj>).
@@ -204,6 +207,10 @@ def step (line : String) : String :=
   | "W" :: t :: b :: f :: rest =>
     match parseTree t, ofHex b, f.toList with
     | some tab, some buf, [e, r] => run tab none buf { expand := e == '1', ranges := r == '1' } (optPairs rest)
+    | _, _, _ => "bad-op"
+  | "D" :: t :: o :: b :: rest =>
+    match parseTree t, parseObjStr o, ofHex b with
+    | some tab, some obj, some buf => run tab (some obj) buf {} (optPairs rest)
     | _, _, _ => "bad-op"
   | "R" :: _ :: t :: o :: b :: rest =>
     match parseTree t, parseObjStr o, ofHex b with
